@@ -147,3 +147,16 @@ package resolver
 // own target is the real path; "real path of the directory + base name" is the real path only for an entry that is
 // not a symlink (otherwise the result is still a link, and the same file gets two identities).
 //@ guarded parent-real-path-only-for-non-symlink-entries C11: func=(resolverQuery).finalizeResolve ; in=resolver ; site=invoke Join ; when-arg=0:*.absRealPath* ; scenario=file_symlink_inside_symlinked_dir ; require=false:call Symlink(*)!=""
+
+// C11 (node's Module._findPath): a relative specifier names a DIRECTORY, and the file lookup (X, X.js, X.json, X.node)
+// is skipped, when it ends in "/" or its last segment is "." or ".." (node: /(?:^|\/)\.?\.$/). With a directory `app/`
+// next to a file `app.js`, `require('../..')` from app/src/deep must reach app/index.js, not app.js. The two suffix
+// tests that implement the "/." and "/.." cases must be there and must look at the specifier itself.
+//@ flow trailing-dot-segment-names-a-directory C11: func=(resolverQuery).resolveWithoutSymlinks ; in=resolver ; site=call HasSuffix ; when-arg=1:"/." OR "/.." ; scenario=dotdot_specifier_prefers_file ; argpath=0:importPath
+
+// C04 (a file listed in "sideEffects" is never dropped): a "sideEffects" entry is matched as a regular expression iff
+// globstarToEscapedRegexp reports a wildcard; otherwise it is compared as a literal path. So every place that emits an
+// UNESCAPED regexp operator for a glob wildcard (`?` -> `.`, `*` -> `[^/]*`, `**` -> a segment loop) must also report the
+// wildcard; `"./polyfill-?.js"` otherwise matches nothing and the polyfills are tree-shaken away.
+//@ flow glob-wildcards-are-reported C04: func=globstarToEscapedRegexp ; in=resolver ; site=call WriteByte ; when-arg=1:46 ; scenario=side_effects_question_mark_glob ; then-updates=hadWildcard
+//@ flow glob-star-wildcards-are-reported C04: func=globstarToEscapedRegexp ; in=resolver ; site=call WriteString ; scenario=side_effects_question_mark_glob ; then-updates=hadWildcard
